@@ -64,6 +64,14 @@ func Run(id string, p *core.Prog, tier string) (res *core.Result) {
 			res.Finish()
 		}
 	}()
+	if p.Converted == nil {
+		names := make([]string, 0, len(knownFuncs))
+		for n := range knownFuncs {
+			names = append(names, n)
+		}
+		sort.Strings(names)
+		p.AliasConverted(names)
+	}
 	f(&Ctx{P: p, R: res, Tier: tier})
 	res.Finish()
 	return res
@@ -124,7 +132,7 @@ func (c *Ctx) isNewHelper(f *ssa.Function, depth int) bool {
 	if f == nil || !c.P.InPkg(f) || depth > 3 || len(f.Blocks) > 60 {
 		return false
 	}
-	if knownFuncs[core.FuncName(f)] {
+	if knownFuncs[core.FuncName(f)] || c.P.Converted[f] != "" {
 		return false
 	}
 	if f.Parent() != nil {
